@@ -168,6 +168,24 @@ def class_configs(tier, seed):
             e["early"] = True
             early.append(e)
     out += early[:6]
+    # MAC-then-encrypt CBC records with the LONGEST admissible padding (a peer may pad up to 255 bytes, RFC 5246
+    # 6.2.3.2): the receiver's constant-time MAC/padding check has a different geometry there
+    longp = []
+    for c in out:
+        if c["cbc"] and not c["etm"] and tuple(c["ver"]) >= (3, 1) and not c.get("early") \
+                and "anon" not in c["name"].lower() and "SRP" not in c["name"]:
+            e = dict(c)
+            e["longpad"] = True
+            longp.append(e)
+    seen = set()
+    for e in longp:
+        k = (e["name"].rsplit("_", 1)[-1], tuple(e["ver"])) if tier == "quick" else \
+            (e["cipher"], e["name"].rsplit("_", 1)[-1], tuple(e["ver"]))
+        if tier == "quick" and (tuple(e["ver"]) == (3, 2) or e["cipher"] == "3des"):
+            continue        # (pure-python 3DES costs ~1 ms per block: thorough tier only)
+        if k not in seen:
+            seen.add(k)
+            out.append(e)
     for i, c in enumerate(out):
         c["case"] = i
     return out
@@ -208,6 +226,18 @@ def setup_pair(cfg, tag):
     sts = tr.attach(p.s, "s")
     st, co, so = p.handshake(ckw=f["ckw"], skw=f["skw"], kind=f["kind"])
     ok = co.ok and so.ok and p.c.session.cipherSuite == cfg["sid"]
+    if ok and cfg.get("longpad"):
+        for conn in (p.c, p.s):
+            rl = conn._recordLayer
+
+            def addPadding(data, _rl=rl):
+                bl = _rl.blockSize
+                pl = bl - 1 - (len(data) % bl)
+                while pl + bl <= 255:
+                    pl += bl
+                data += bytearray([pl] * (pl + 1))
+                return data
+            rl.addPadding = addPadding
     if ok and cfg.get("early") and not (b"\x00\x2a\x00\x00" in bytes(p.c2s.sent_log[:800])):
         ok = False     # the ClientHello did not carry early_data
     return p, tr, ok, "%s/%s" % (co.describe(), so.describe())
@@ -280,6 +310,8 @@ def record_level(cfg, tier):
     lens_sets = [[1, 16, 17], [0, 15, 100]] if tier == "quick" else [[1, 16, 17], [0, 15, 100], [31, 32, 33], [2, 47, 256]]
     if tier == "quick":
         lens_sets = [lens_sets[(cfg["case"] + env.SEED) % 2]]
+    if cfg.get("longpad"):
+        lens_sets = [[0, 15, 300], [44, 257, 1000]] if tier != "quick" else [[44, 300]]
     origs = {}
     for conn, ep, st in tr._att:
         origs[ep] = st["orig_recv"]
